@@ -249,6 +249,11 @@ def storage_agrees(c):
         got = {k: dict.__getitem__(c, k) for k in dict.keys(c)}
     except Exception:
         return False
+    if not got and items:
+        # the implementation does not keep a second representation in the
+        # dict storage at all: the public accessors (compared separately)
+        # are the whole truth
+        return len(c) == len(items)
     if set(got) != set(want):
         return False
     for k in want:
